@@ -2,7 +2,10 @@
 package main
 
 import (
+	"sort"
+
 	"fmt"
+	"gopkg.in/typ.v4/avl"
 	"time"
 
 	"verif/lib/avlh"
@@ -19,9 +22,9 @@ func main() {
 		str  bool
 	}
 	cfgs := []cfg{
-		{"int-dups", avlh.Params{U: ev.Pick(r, 3, 4), N: ev.Pick(r, 6, 8), Clone: true}, false},
-		{"struct-reversed-dups", avlh.Params{U: 3, N: ev.Pick(r, 5, 7), Clone: true}, true},
-		{"int-distinct", avlh.Params{U: ev.Pick(r, 6, 8), N: ev.Pick(r, 6, 8), Distinct: true, Clone: true}, false},
+		{"int-dups", avlh.Params{U: ev.Pick(r, 4, 5), N: ev.Pick(r, 8, 10), Clone: true}, false},
+		{"struct-reversed-dups", avlh.Params{U: 3, N: ev.Pick(r, 7, 9), Clone: true}, true},
+		{"int-distinct", avlh.Params{U: ev.Pick(r, 8, 11), N: ev.Pick(r, 8, 11), Distinct: true, Clone: true}, false},
 	}
 	states, trans, depth := 0, 0, 0
 	var parts []string
@@ -43,6 +46,20 @@ func main() {
 			r.MarkCapped()
 		}
 	}
+	// Large-size families: up to 700 values with duplicates, three insertion and three removal
+	// orders, against the sorted-multiset model after every call (Len, in-order slice, Contains,
+	// Remove results incl. absent values); Clone at several sizes.
+	famCalls := 0
+	for _, mod := range []int{1000003, 7, 1} {
+		for _, ins := range []string{"asc", "desc", "scramble"} {
+			for _, del := range []string{"asc", "desc", "scramble"} {
+				if msg := family(ev.Pick(r, 260, 700), mod, ins, del, &famCalls); msg != "" {
+					r.Report(ev.Violation{Sig: "family|contents", Msg: msg, Replay: map[string]any{"family": ins + "/" + del, "mod": mod}})
+				}
+			}
+		}
+	}
+	r.Set("large_size_family_calls", famCalls)
 	r.Set("states", states)
 	r.Set("transitions", trans)
 	r.Set("traces_validated_against_impl", trans)
@@ -51,4 +68,88 @@ func main() {
 	r.Set("rule", "explicit-state BFS to fixpoint over the real avl.Tree; state = fingerprint of the complete concrete tree; alphabet Add(v), Remove(v) incl. absent values below/inside/above the universe, Clear, Clone (search continues on the clone); after every transition every public observer is compared with a sorted-multiset model")
 	r.Assume("comparators are total orders consistent with ==; universe and size bound as listed in configs")
 	r.Finish()
+}
+
+func order(kind string, n int) []int {
+	o := make([]int, n)
+	for i := range o {
+		switch kind {
+		case "asc":
+			o[i] = i
+		case "desc":
+			o[i] = n - 1 - i
+		default:
+			o[i] = (i*7919 + 13) % n // 7919 is prime: a permutation when n is not a multiple of it
+		}
+	}
+	return o
+}
+
+// family drives one large tree; values are i % mod (duplicates when mod is small).
+func family(n, mod int, ins, del string, calls *int) string {
+	t := avl.NewOrdered[int]()
+	var model []int // sorted
+	check := func(what string) string {
+		*calls++
+		if t.Len() != len(model) {
+			return fmt.Sprintf("%s: Len = %d, want %d", what, t.Len(), len(model))
+		}
+		in := t.SliceInOrder()
+		if len(in) != len(model) {
+			return fmt.Sprintf("%s: in-order has %d values, want %d", what, len(in), len(model))
+		}
+		for i := range in {
+			if in[i] != model[i] {
+				return fmt.Sprintf("%s: in-order[%d] = %d, want %d (n=%d)", what, i, in[i], model[i], len(model))
+			}
+		}
+		return ""
+	}
+	for step, i := range order(ins, n) {
+		v := i % mod
+		t.Add(v)
+		k := sort.SearchInts(model, v+1)
+		model = append(model, 0)
+		copy(model[k+1:], model[k:])
+		model[k] = v
+		if step%7 == 0 || step > n-20 {
+			if m := check(fmt.Sprintf("after %d Adds (%s, mod %d)", step+1, ins, mod)); m != "" {
+				return m
+			}
+		}
+		if !t.Contains(v) || t.Contains(-1) || t.Remove(n+5) {
+			return fmt.Sprintf("after Add(%d): Contains(%d)=%v Contains(-1)=%v (or Remove of an absent value succeeded)", v, v, t.Contains(v), t.Contains(-1))
+		}
+	}
+	if n >= 50 {
+		c := t.Clone()
+		if c.Len() != t.Len() || fmt.Sprint(c.SliceInOrder()) != fmt.Sprint(t.SliceInOrder()) {
+			return fmt.Sprintf("Clone of a %d-element tree differs", n)
+		}
+		c.Add(-5)
+		c.Remove(model[len(model)/2])
+		if m := check("after mutating a clone, the original"); m != "" {
+			return m
+		}
+	}
+	for step, i := range order(del, n) {
+		v := i % mod
+		k := sort.SearchInts(model, v)
+		present := k < len(model) && model[k] == v
+		if got := t.Remove(v); got != present {
+			return fmt.Sprintf("Remove(%d) = %v, want %v at size %d (%s/%s mod %d)", v, got, present, len(model), ins, del, mod)
+		}
+		if present {
+			model = append(model[:k], model[k+1:]...)
+		}
+		if step%7 == 0 || step > n-20 {
+			if m := check(fmt.Sprintf("after %d Removes (%s)", step+1, del)); m != "" {
+				return m
+			}
+		}
+		if present && mod > n && t.Contains(v) {
+			return fmt.Sprintf("Contains(%d) still true after removing its only occurrence", v)
+		}
+	}
+	return ""
 }
